@@ -1460,6 +1460,14 @@ impl ASN1Value {
                 ty: ASN1Type::ElsewhereDeclaredType(elsewhere),
                 ..
             })) => {
+                // a type reference met twice means the references run in a circle
+                if supertypes.contains(&elsewhere.identifier) {
+                    return Err(grammar_error!(
+                        LinkerError,
+                        "Circular type reference '{}'",
+                        elsewhere.identifier
+                    ));
+                }
                 supertypes.push(elsewhere.identifier.clone());
                 Self::link_enum_or_distinguished(tlds, elsewhere, identifier, supertypes)
             }
